@@ -452,6 +452,16 @@ func genS1(g *Gen) {
 			}
 		}
 		emit("core.nary", "sum")
+		// long sums of unreduced scalars (an accumulator that is only reduced at the end overflows its limbs after a few
+		// dozen terms of 2^255-1)
+		for _, k := range []int{36, 37, 40, 74, 75, 100} {
+			many := make([]string, 0, k+1)
+			many = append(many, "sum")
+			for i := 0; i < k; i++ {
+				many = append(many, hx(leBytes(scxAddI(p2(255), -1-int64(i%3)), 32)))
+			}
+			emit("sum.many", many...)
+		}
 		emit("core.nary", "product")
 		emit("core.nary", "batchinvert")
 		for _, l := range []int{0, 31, 33} {
@@ -606,6 +616,22 @@ func s1hx(s *scalar.Scalar) string {
 		return "tobytes-failed"
 	}
 	return hx(b[:])
+}
+
+// s1nary evaluates an n-ary operation with a fresh receiver and again with the receiver being the first / the last element
+// of the operand slice itself (every routine of the package allows the receiver to alias an operand).
+func s1nary(a []string, l []*scalar.Scalar, f func(r *scalar.Scalar, v []*scalar.Scalar) *scalar.Scalar) string {
+	want := s1hx(f(scalar.New(), l))
+	for _, i := range []int{0, len(l) - 1} {
+		if i < 0 || i >= len(l) {
+			continue
+		}
+		l2 := s1list(a)
+		if got := s1hx(f(l2[i], l2)); got != want {
+			return "alias-mismatch " + want + " " + got
+		}
+	}
+	return "ok " + want
 }
 
 func s1list(a []string) []*scalar.Scalar {
@@ -766,13 +792,13 @@ func execS1(op string, a []string) string {
 		if l == nil && len(a) > 0 {
 			return "err"
 		}
-		return "ok " + s1hx(scalar.New().Sum(l))
+		return s1nary(a, l, func(r *scalar.Scalar, v []*scalar.Scalar) *scalar.Scalar { return r.Sum(v) })
 	case "product":
 		l := s1list(a)
 		if l == nil && len(a) > 0 {
 			return "err"
 		}
-		return "ok " + s1hx(scalar.New().Product(l))
+		return s1nary(a, l, func(r *scalar.Scalar, v []*scalar.Scalar) *scalar.Scalar { return r.Product(v) })
 	case "batchinvert":
 		l := s1list(a)
 		if l == nil && len(a) > 0 {
